@@ -27,6 +27,9 @@ func main() {
 	debug := flag.Bool("debug", false, "debug panics")
 	solver := flag.String("solver", "z3", "solver")
 	maxDec := flag.Int("maxdec", 0, "decision bound")
+	gor := flag.Bool("goroutines", false, "enable the cooperative goroutine scheduler")
+	nondet := flag.Bool("sched-nondet", false, "explore scheduling choices")
+	preempt := flag.Int("sched-preempt", 0, "preemptions explored per path")
 	flag.Parse()
 	build := filepath.Join(*verif, "build", fmt.Sprintf("run-%d", os.Getpid()))
 	defer os.RemoveAll(build)
@@ -61,6 +64,7 @@ func main() {
 			cfg.DebugPanics = *debug
 			cfg.Solver = *solver
 			cfg.MaxDecisions = *maxDec
+			cfg.Goroutines, cfg.SchedNondet, cfg.SchedPreempt = *gor, *nondet, *preempt
 			res := interp.Explore(prog, fn, cfg)
 			fmt.Print(res.Summary())
 			if len(res.Violations) > 0 {
